@@ -5,6 +5,7 @@ lena.core.FillRequestSeq, the fill/request branch of lena.core.Split.run.
 Model: lean/LenaModel/Model/C16.lean, theorems lean/LenaModel/Props/C16.lean.
 """
 import itertools
+import time
 
 from harness.common import exc_name
 
@@ -179,7 +180,56 @@ def _sizes(fr):
     return [fr._n_count, len(getattr(fr, "_buffer_in", ())), len(getattr(fr, "_buffer_out", ()))]
 
 
+# ---- guards for a non-terminating implementation ------------------------------------------------
+# "every call returns in finite time" is watched by common's per-case timer (CASE_TIMEOUT, confirmed by a solitary
+# re-run with a ten times larger budget).  Two additions keep a check over an implementation that hangs short
+# and harmless:
+#  * a hang that allocates (the defect fixed in 8562852 extended a list while iterating over it) hits an
+#    address-space limit set in the pool workers and surfaces at once as `Other:MemoryError` in that call;
+#  * after two cases that hung while burning CPU (and their two confirming re-runs) a process stops executing
+#    cases: they are returned as {"skipped": ...} (never a failure, labelled in the histogram).  The hangs seen
+#    until then are reported as failing inputs, so the check exits 1 in minutes instead of hours.
+_HANGS = {"n": 0, "guard": False}
+_HANG_LIMIT = 4
+_MEM_HEADROOM = 1 << 30
+
+
+def _guard_memory():
+    if _HANGS["guard"]:
+        return
+    _HANGS["guard"] = True
+    try:
+        import multiprocessing
+        import resource
+        if multiprocessing.current_process().name == "MainProcess":
+            return      # the main process starts the Lean driver: leave its limits alone
+        with open("/proc/self/statm") as f:
+            vm = int(f.read().split()[0]) * resource.getpagesize()
+        soft, hard = resource.getrlimit(resource.RLIMIT_AS)
+        lim = vm + _MEM_HEADROOM
+        if hard != resource.RLIM_INFINITY:
+            lim = min(lim, hard)
+        if soft == resource.RLIM_INFINITY or lim < soft:
+            resource.setrlimit(resource.RLIMIT_AS, (lim, hard))
+    except Exception:
+        pass
+
+
 def run_impl(case):
+    if _HANGS["n"] >= _HANG_LIMIT and case["op"] != "init":
+        return {"skipped": f"{_HANGS['n']} calls of the real code hung in this process before"}
+    _guard_memory()
+    t0 = time.process_time()
+    try:
+        return _run_impl(case)
+    except BaseException as e:
+        # common.CaseTimeout; counted only if the case itself used the CPU (not a stalled machine)
+        if type(e).__name__ == "CaseTimeout" and time.process_time() - t0 > 0.7 * CASE_TIMEOUT:
+            _HANGS["n"] += 1
+        raise
+
+
+def _run_impl(case):
     import lena.core
     op = case["op"]
     if op == "init":
@@ -270,6 +320,8 @@ def compare(case, res, replies):
     m = replies[0]
     if "err" in m:
         return f"model driver error: {m['err']}"
+    if "skipped" in res:
+        return None
     op = case["op"]
     if "e" in res or "e" in m:
         if res.get("e") != m.get("e"):
@@ -334,6 +386,8 @@ def ref_run(case, flow):
 
 def oracle(case, res):
     op = case["op"]
+    if "skipped" in res:
+        return None     # not executed: earlier cases hung and are reported (see run_impl)
     if op == "init":
         errs = ref_init(case)
         if "e" in res:
@@ -534,6 +588,8 @@ def gen_cases(ctx):
 
 
 def nontrivial(case, res):
+    if "skipped" in res:
+        return False
     if "e" in res:
         return True
     if case["op"] == "init":
@@ -545,6 +601,8 @@ def nontrivial(case, res):
 
 def classify(case, res):
     op = case["op"]
+    if "skipped" in res:
+        return ["skipped-after-hangs"]
     if op == "init":
         return ["init:" + res.get("e", "ok")]
     labels = [f"{op}:{case['kind']}", f"{op}:{case['buf']}:reset={case['reset']}:yor={case['yor']}",
@@ -563,8 +621,11 @@ def classify(case, res):
 
 
 def signature(case, failure):
-    c = dict(case)
-    return f"{c.pop('op')}:" + ",".join(f"{k}={c[k]}" for k in sorted(c))
+    """the configuration that fails (not the flow length / request schedule / sizes: the replay file holds the
+    concrete shrunk input), so that one defect is reported a few times, not once per failing schedule"""
+    if case["op"] == "init":
+        return "init:" + ",".join(f"{k}={case[k]}" for k in sorted(case) if k != "op")
+    return f"{case['op']}:kind={case['kind']},buf={case.get('buf')},reset={case['reset']},yor={case['yor']}"
 
 
 def shrink(case):
